@@ -5,6 +5,8 @@ Model of the hand-written backward passes of numqi.  No Mathlib import.
 * `applyControlledGrad`                — `apply_control_n_gate_grad` (`state.py:168-208`)
 * `PGate`, `forward`, `backward`       — `_CircuitFunction.forward/backward` (`sim/_torch_utils.py:9-78`): the reverse
                                          sweep that un-applies every gate and accumulates operator gradients (`+=`)
+* `customApply`, `customGrad`          — a `kind='custom'` diagonal-phase gate: `numqi.query.GroverOracle` /
+                                         `FractionalGroverOracle` `.forward` / `.grad_backward` (`query/_gradient_model.py:47-105`)
 * `slotTable`                          — `CircuitTorchWrapper._setup` (`_torch_utils.py:101-156`): which row of which
                                          stacked gate tensor a gate reads (`ind_gate_to_ind_torch`)
 * `klForward`, `klBackward`            — `_KnillLaflammeInnerProductTorchOp` (`qec/_internal.py:150-189`)
@@ -50,6 +52,28 @@ def applyControlledGrad (U : Mat k α) (isCtrl : Fin n → Bool) (rest : Fin n' 
   let qc' := applyControlled (transposeMat U) isCtrl rest tNew qc
   (qc', applyControlled (daggerMat U) isCtrl rest tNew g, opGrad tNew (slice rest g) (slice rest qc'))
 
+/-! ### `kind='custom'`: a diagonal-phase gate (`query/_gradient_model.py:47-105`)
+
+`GroverOracle` / `FractionalGroverOracle` reshape the state to a square matrix and multiply its diagonal by a scalar `a`
+(`-1`, resp. `exp(-iπθ)` = the gate's row of the stacked tensor of its name).  The model is abstract in *which* entries are
+multiplied (`diag : Bits n → Bool`; the driver instantiates it with "row index = column index"). -/
+
+/-- the only entry of a `1×1` operator (`k = 0`): the scalar of a custom gate's slot -/
+def scalarOf (U : Mat 0 α) : α := U (fun i => i.elim0) (fun i => i.elim0)
+
+/-- `gate.forward(q0)`: `q0[idx, idx] *= array` -/
+def customApply (a : α) (diag : Bits n → Bool) (ψ : Vec n α) : Vec n α := fun x => if diag x then ψ x * a else ψ x
+
+/-- `gate.grad_backward(q0_conj, q0_grad)` ↦ `(q0_conj', q0_grad', op_grad)`:
+`q0_conj[idx,idx] *= array; op_grad = np.dot(q0_conj[idx,idx], q0_grad[idx,idx]); q0_grad[idx,idx] *= array.conj()` -/
+def customGrad (a : α) (diag : Bits n → Bool) (qc g : Vec n α) : Vec n α × Vec n α × Mat 0 α :=
+  let qc' := customApply a diag qc
+  (qc', customApply (conj a) diag g, fun _ _ => sumBits n fun x => if diag x then qc' x * g x else 0)
+
+/-- `inner_product_grad(q0, q1, c_grad)` (`state.py:260-269`), the rule for `c = vdot(q0, q1)`:
+`(q0_grad, q1_grad) = (q1·conj(c_grad), q0·c_grad)`; `tag_grad` only selects which of the two is returned. -/
+def innerProductGrad (q0 q1 : Vec n α) (c : α) : Vec n α × Vec n α := (fun x => q1 x * conj c, fun x => q0 x * c)
+
 /-! ### the reverse sweep -/
 
 /-- where a gate takes its matrix from: a constant array (`info['array']`) or row `slot` of the stacked gate
@@ -65,15 +89,19 @@ def Src.get (Θ : Params α) : Src k α → Mat k α
   | .fixed U => U
   | .param s => Θ k s
 
-/-- one entry of `ind_gate_to_info` (kinds `unitary` and `control`; `measure` is rejected by the backward pass) -/
+/-- one entry of `ind_gate_to_info` (kinds `unitary`, `control` and `custom`; `measure` is rejected by the backward pass).
+A custom gate's scalar is a `1×1` source: constant (`GroverOracle`: `-1`; a frozen `FractionalGroverOracle`) or slot `s` of the
+size-0 family — the row `ind_torch` of the stacked tensor of its name, which is also where its `op_grad` must be accumulated. -/
 inductive PGate (n : Nat) (α : Type) where
   | unitary {k : Nat} (src : Src k α) (t : Fin k → Fin n)
   | control {k n' : Nat} (src : Src k α) (isCtrl : Fin n → Bool) (rest : Fin n' → Fin n) (tNew : Fin k → Fin n')
+  | custom (src : Src 0 α) (diag : Bits n → Bool)
 
 /-- one step of the forward loop (`_torch_utils.py:19-37`) -/
 def PGate.apply (Θ : Params α) : PGate n α → Vec n α → Vec n α
   | .unitary src t, ψ => applyGate (src.get Θ) t ψ
   | .control src c r tn, ψ => applyControlled (src.get Θ) c r tn ψ
+  | .custom src d, ψ => customApply (scalarOf (src.get Θ)) d ψ
 
 /-- `_CircuitFunction.forward` -/
 def forward (Θ : Params α) (gates : List (PGate n α)) (ψ : Vec n α) : Vec n α :=
@@ -95,6 +123,9 @@ def PGate.back (Θ : Params α) : PGate n α → Vec n α × Vec n α × Params 
   | .control src c rest tn, (qc, g, G) =>
     let r := applyControlledGrad (src.get Θ) c rest tn qc g
     (r.1, r.2.1, src.accumulate G r.2.2)
+  | .custom src d, (qc, g, G) =>
+    let r := customGrad (scalarOf (src.get Θ)) d qc g
+    (r.1, r.2.1, src.accumulate G r.2.2)
 
 /-- `_CircuitFunction.backward`: the gates are visited from the last to the first -/
 def backward (Θ : Params α) (gates : List (PGate n α)) (init : Vec n α × Vec n α × Params α) :
@@ -109,6 +140,8 @@ def PGate.dapply (δΘ : Params α) : PGate n α → Vec n α → Vec n α
   | .control (.fixed _) _ _ _, _ => fun _ => 0
   | .control (.param s) c r tn, ψ =>
     fun x => if ctrlOn c x then applyGate (δΘ _ s) tn (slice r ψ) (x.sel r) else 0
+  | .custom (.fixed _) _, _ => fun _ => 0
+  | .custom (.param s) d, ψ => fun x => if d x then ψ x * scalarOf (δΘ 0 s) else 0
 
 /-- derivative of `forward` at `(Θ, ψ)` in the direction `(δΘ, δψ)` by the product rule -/
 def dforward (Θ δΘ : Params α) : List (PGate n α) → Vec n α → Vec n α → Vec n α
@@ -146,6 +179,13 @@ def slotOf (gs : List GateDesc) (i : Nat) : Option (String × Nat) :=
       some (g.name, (placeholderPositions gs g.name).idxOf i + (firstComeIds gs g.name).length)
     else if g.trainable then some (g.name, (firstComeIds gs g.name).idxOf g.objId)
     else none
+
+/-- `CircuitTorchWrapper.forward` (`_torch_utils.py:197-218`): the tensor of name `nm` handed to `_CircuitFunction` is
+`concat([pgate_torch_dict[nm], hgate_torch_dict[nm]])` — one row per distinct trainable object in first-come order (the rows
+of `theta[nm]`), then one row per placeholder gate in circuit order (`setP`, `_torch_utils.py:184-195`).  Row tags:
+`(false, objId)` for a trainable row, `(true, position)` for a placeholder row. -/
+def stackTags (gs : List GateDesc) (nm : String) : List (Bool × Nat) :=
+  (firstComeIds gs nm).map (fun o => (false, o)) ++ (placeholderPositions gs nm).map (fun p => (true, p))
 
 /-! ### array-level execution of the sweep (what `Driver/C04.lean` runs)
 
@@ -185,11 +225,13 @@ def backwardA (Θ : Params α) (gates : List (PGate n α)) (init : StA α) : StA
 def PGate.Covered (tab : ParamTable α) : PGate n α → Prop
   | .unitary (k := k) (.param s) _ => ∃ e ∈ tab, e.1 = k ∧ e.2.1 = s
   | .control (k := k) (.param s) _ _ _ => ∃ e ∈ tab, e.1 = k ∧ e.2.1 = s
+  | .custom (.param s) _ => ∃ e ∈ tab, e.1 = 0 ∧ e.2.1 = s
   | _ => True
 
 def PGate.coveredB (tab : ParamTable α) : PGate n α → Bool
   | .unitary (k := k) (.param s) _ => tab.any fun e => e.1 == k && e.2.1 == s
   | .control (k := k) (.param s) _ _ _ => tab.any fun e => e.1 == k && e.2.1 == s
+  | .custom (.param s) _ => tab.any fun e => e.1 == 0 && e.2.1 == s
   | _ => true
 
 end arrays
